@@ -303,9 +303,9 @@ def run(tier, seed):
         "level": "exploration",
         "rule": "every state sequence of length <= %d over {NONE,READY,WORKING,FINISHED} for tasks and components and of length <= %d over {FREE,WORKING,ABSENCE} for workers and facilities x finish margins "
         "{0,0.5,1}: get_time_list_for_gannt_chart must return exactly the maximal runs (start, length-1+margin); chart rows for unit 1 minute / 1 day (lengths <= 5) must map index k to init+k*unit; every "
-        "multiset of <= 3 logs (all sequences up to a length bound; objects with distinct names and all sharing one name) x every time list within {0..3} x every state: extract_* of workflow/product/team/workplace must return exactly the matching objects; "
+        "multiset of <= 3 logs (all sequences up to a length bound; objects with distinct names and all sharing one name; log entries as enum members, plain ints and members of the sibling enum) x every time list within {0..3} x every state: extract_* of workflow/product/team/workplace must return exactly the matching objects; "
         "set_last_datetime for time 1..7 x units x flags x dates, and on real results (simulate with absence lists incl. beyond-the-end and duplicated steps, with and without remove_absence_time_list); "
-        "container-level chart data of workflow / product / organization must equal the concatenation of the members' rows for margins {0,0.5,1,2}; non-trivial = sequences with at least two different states / queries selecting a proper non-empty subset" % (L_t, L_r),
+        "container-level chart data of workflow / product / organization must equal the concatenation of the members' rows for margins {0,0.5,1,2} (one member an automatic task); non-trivial = sequences with at least two different states / queries selecting a proper non-empty subset" % (L_t, L_r),
         "bounds": {"task_seq_len": L_t, "resource_seq_len": L_r},
         "assumptions": ["set_last_datetime is claimed for time >= 1 (with no simulated step there is no last step)"],
     }
